@@ -6,3 +6,14 @@ claim('C14',
       'Bounds: string lengths and alphabet (see evidence.bounds); metadata access through the real metautils.NiceMD; os.Getenv is a '
       'harness-provided value; trusted: go/ssa, the executor, z3.',
       'SSA symbolic execution + SMT (z3), bounded strings', 'DESIGN.md 6/C14')
+
+claim('C16',
+      'Bounded symbolic execution of the real StrPath/StrPathElem/writeSafeString/SplitPath/nextTokenIndex/ParseGNMIElements/'
+      'parseElement/parseKey/findUnescaped, GetParentPath, PathValuesToGnmiChange, newUpdateResult and createUpdate: for every path '
+      'shape inside the bounds (element/key counts and lengths case-split, all byte contents symbolic over identifier bytes plus every '
+      'escape-worthy byte) z3 proves parse(split(render(p))) == p (hence injectivity of the rendering inside the bound), the parent '
+      'law, and that the southbound SetRequest, the SetResponse and a PROTO Get update carry exactly p. Panic sites of the encoded '
+      'code are side obligations. SAT models are replayed natively before being reported.',
+      'Bounds in evidence.bounds (elements, keys per element, name/value lengths, alphabets); runes decoded as bytes (<0x80); '
+      'sort.Strings modelled for the bounded key count; trusted: go/ssa, executor, z3.',
+      'SSA symbolic execution + SMT (z3), case-split shapes, symbolic bytes', 'DESIGN.md 6/C16')
